@@ -9,6 +9,7 @@ import os
 import shutil
 import tempfile
 import threading
+import time
 from typing import Any, Dict, List, Optional
 
 from hypothesis import strategies as st
@@ -57,7 +58,8 @@ def c18_case(draw):
         if m["ok"] and M.kind_of(m["data"]) == "Float":
             c = {"nodes": c["nodes"] + [{"p": "FloatDivideOperation", "params": {"divisor": 0.0}}, {"p": "FloatSquareOperation"}], "ctx": c["ctx"], "data": c["data"]}
             fails = not M.run(c)["ok"]
-    return {"case": c, "way": way, "traced": draw(st.booleans()), "fails": fails}
+    return {"case": c, "way": way, "traced": draw(st.booleans()), "fails": fails,
+            "fire_and_forget": way == "queue" and draw(st.sampled_from([False, True]))}
 
 
 def sample() -> Dict[str, Any]:
@@ -145,6 +147,10 @@ def run_way(spec: Dict[str, Any], points: List[int], workroot: str) -> Dict[str,
             wt.start()
             try:
                 for i in range(last + 1):
+                    if spec.get("fire_and_forget") and i not in points:
+                        # the default way of enqueuing: no Future is asked for; the sample points act as barriers (one worker, FIFO)
+                        master.enqueue(copy.deepcopy(cfg), data=observe.build_data(case["data"]), context=ContextType(copy.deepcopy(case["ctx"])))
+                        continue
                     fut = master.enqueue(copy.deepcopy(cfg), data=observe.build_data(case["data"]), context=ContextType(copy.deepcopy(case["ctx"])), return_future=True)
                     try:
                         fut.result(timeout=60)
@@ -154,6 +160,10 @@ def run_way(spec: Dict[str, Any], points: List[int], workroot: str) -> Dict[str,
                         if not spec.get("fails"):
                             raise
                     del fut
+                    if i in points and spec.get("fire_and_forget"):
+                        t_end = time.time() + 3.0  # let the master take the statuses of the jobs nobody waits for
+                        while time.time() < t_end and (master.job_queue.qsize() or sum(len(q) for q, _l in list(transport._queues.values()))):
+                            time.sleep(0.02)
                     if i in points:
                         samples[i] = sample()
                         if i in points[-2:]:
@@ -171,7 +181,7 @@ def run_way(spec: Dict[str, Any], points: List[int], workroot: str) -> Dict[str,
 def check_case(spec: Dict[str, Any], col: Collector, workroot: str = ".", quick: bool = True) -> None:
     way = spec["way"]
     points = [10, 30, 60, 90] if (way == "queue" and quick) else [50, 150, 300, 450]
-    rep = {"case": spec["case"], "way": way, "traced": spec.get("traced", False), "fails": spec.get("fails", False)}
+    rep = {"case": spec["case"], "way": way, "traced": spec.get("traced", False), "fails": spec.get("fails", False), "fire_and_forget": spec.get("fire_and_forget", False)}
     r = run_way(spec, points, workroot)
     if "skip" in r:
         col.exclude(1, "way_not_applicable")
@@ -180,7 +190,7 @@ def check_case(spec: Dict[str, Any], col: Collector, workroot: str = ".", quick:
     if len(s) != 4:
         col.add("samples_missing", {"way": way}, rep, sorted(s), points)
         return
-    labs = ["way:" + way, "nodes:%d" % len(spec["case"]["nodes"]), "traced" if spec.get("traced") else "untraced", "every_run_fails" if spec.get("fails") else "every_run_succeeds"]
+    labs = ["way:" + way, "nodes:%d" % len(spec["case"]["nodes"]), "traced" if spec.get("traced") else "untraced", "every_run_fails" if spec.get("fails") else "every_run_succeeds"] + (["queue_jobs_without_future"] if spec.get("fire_and_forget") else [])
     for n in spec["case"]["nodes"]:
         d = M.describe(n)
         labs.append("kind:" + d["kind"] + (":" + d["sub"] if d.get("sub") else ""))
@@ -189,6 +199,8 @@ def check_case(spec: Dict[str, Any], col: Collector, workroot: str = ".", quick:
     feats = {"way": way}
     if spec.get("fails"):
         feats["runs_fail"] = True
+    if spec.get("fire_and_forget"):
+        feats["no_future"] = True
     if not (a["registry"] == b["registry"] == mid["registry"] == c["registry"]):
         growing = sorted(k for k in c["buckets"] if c["buckets"].get(k, 0) > a["buckets"].get(k, 0))
         col.add("component_registry_grows_with_runs", dict(feats, buckets=growing[:4]), rep,
